@@ -37,8 +37,19 @@ Proof.
   unfold env_of, added_of. destruct (eco_implicit a); simpl; rewrite map_fst_src; reflexivity.
 Qed.
 
-Lemma eco_implicit_Some a l : eco_implicit a = Some l -> a_implicit a = Some l.
-Proof. unfold eco_implicit. destruct (a_kind a); try discriminate. auto. Qed.
+Lemma eco_implicit_Some a l : eco_implicit a = Some l ->
+  exists keys, a_implicit a = Some keys /\ l = filter (fun t => mem t keys) (a_tokens a).
+Proof.
+  unfold eco_implicit. destruct (a_kind a); try discriminate.
+  destruct (a_implicit a) as [keys|]; simpl; [|discriminate].
+  intros H. inversion H. eauto.
+Qed.
+
+Lemma eco_implicit_tokens a l t : eco_implicit a = Some l -> In t l -> In t (a_tokens a).
+Proof.
+  intros He Ht. destruct (eco_implicit_Some a l He) as [keys [_ ->]].
+  apply filter_In in Ht. tauto.
+Qed.
 
 (* ---- token tables ------------------------------------------------------------------ *)
 
@@ -280,7 +291,7 @@ Section Faithful.
     unfold added, added_of, t1, t2, t3, t4, A0, x_added_prods, n_added, off.
     destruct (eco_implicit a) as [l|] eqn:He.
     - (* Eco with implicit tokens: ^, ~, ^~ *)
-      assert (Himp : a_implicit a = Some l) by (apply eco_implicit_Some; assumption).
+      destruct (eco_implicit_Some a l He) as [keys [Himp Hl]].
       assert (HeS : e_start_rule E = sn) by (unfold E, env_of; rewrite He; reflexivity).
       assert (HeI : e_implicit_rule E = Some n1) by (unfold E, env_of; rewrite He; reflexivity).
       assert (HeIS : e_implicit_start_rule E = Some n2) by (unfold E, env_of; rewrite He; reflexivity).
@@ -294,9 +305,9 @@ Section Faithful.
       unfold step at 1. rewrite (rule_map_n1 l He). simpl obind. rewrite HeS.
       rewrite (name_eqb_neq n1 sn) by (intros Hx; apply sn_ne_n1; auto).
       rewrite HeIS. cbn [opt_name_is]. rewrite (name_eqb_neq n2 n1) by (intros Hx; apply n1_ne_n2; auto).
-      rewrite HeI. cbn [opt_name_is]. rewrite name_eqb_refl. rewrite Himp. simpl obind.
+      rewrite HeI. cbn [opt_name_is]. rewrite name_eqb_refl. rewrite Himp. simpl obind. rewrite <- Hl.
       rewrite (implicit_fold a l _ _ _ _ _ _ _ []).
-      2:{ intros t Ht. eapply (wf_implicit a Hwf); eauto. }
+      2:{ intros t Ht. eapply eco_implicit_tokens; eauto. }
       2:{ reflexivity. }
       simpl obind. cbn [b_rprods b_prods]. unfold push_at. cbn [upd nth_error app]. simpl obind.
       unfold push_prod. cbn [b_prods b_precs b_prules b_actions b_aspans b_atypes upd].
@@ -419,7 +430,7 @@ Proof.
     - assert (H1 : e_implicit_rule (env_of a sn n1 n2) = None) by (unfold env_of; rewrite He; reflexivity).
       rewrite H1. reflexivity. }
   rewrite Hir. simpl obind.
-  unfold expected. f_equal.
+  unfold expected.
   assert (Hrn : e_rule_names (env_of a sn n1 n2) = x_rule_names a sn n1 n2).
   { unfold env_of, x_rule_names, src_rule_names. destruct (eco_implicit a); reflexivity. }
   assert (Hpl : length (map (x_prod a) (a_prods a) ++ x_added_prods a) = length (a_prods a) + n_added a).
@@ -430,7 +441,7 @@ Proof.
   assert (Hsp : (if fixed then resize (map ap_span (a_prods a)) (length (a_prods a) + n_added a) (0, 0)
                  else map ap_span (a_prods a)) = x_prod_spans fixed a).
   { unfold x_prod_spans. destruct fixed; [|rewrite app_nil_r; reflexivity].
-    rewrite <- (map_length ap_span (a_prods a)) at 2. apply resize_pad. }
+    rewrite <- (map_length ap_span (a_prods a)). apply resize_pad. }
   assert (Hac : (if fixed then resize (map (fun p => option_map fst (ap_action p)) (a_prods a) ++ t4)
                                       (length (a_prods a) + n_added a) None
                  else map (fun p => option_map fst (ap_action p)) (a_prods a) ++ t4) = x_actions fixed a).
@@ -444,7 +455,7 @@ Proof.
                                       (length (a_prods a) + n_added a) None
                  else map (fun p => option_map snd (ap_action p)) (a_prods a)) = x_action_spans fixed a).
   { unfold x_action_spans. destruct fixed; [|rewrite app_nil_r; reflexivity].
-    rewrite <- (map_length (fun p => option_map snd (ap_action p)) (a_prods a)) at 2. apply resize_pad. }
+    rewrite <- (map_length (fun p => option_map snd (ap_action p)) (a_prods a)). apply resize_pad. }
   rewrite Hsp, Hac, Has.
   reflexivity.
 Qed.
@@ -459,3 +470,348 @@ Lemma build_total : build_total_stmt.
 Proof.
   intros fixed a Hwf. destruct (build_faithful fixed a Hwf) as [sn [n1 [n2 [_ [_ [_ H]]]]]]. eauto.
 Qed.
+
+(* ---- rule names stay unique --------------------------------------------------------------- *)
+
+Lemma nodup_app_intro {A} (l1 l2 : list A) :
+  NoDup l1 -> NoDup l2 -> (forall x, In x l1 -> ~ In x l2) -> NoDup (l1 ++ l2).
+Proof.
+  induction l1 as [|x l1 IH]; intros H1 H2 Hd; simpl; [assumption|].
+  inversion H1 as [|y l Hni Hnd]; subst. constructor.
+  - intros Hi. apply in_app_or in Hi. destruct Hi as [Hi|Hi]; [contradiction|].
+    apply (Hd x (or_introl eq_refl) Hi).
+  - apply IH; auto. intros y Hy. apply Hd. right. assumption.
+Qed.
+
+Lemma rule_names_unique : rule_names_unique_stmt.
+Proof.
+  intros fixed a g Hwf Hb.
+  destruct (build_faithful fixed a Hwf) as [sn [n1 [n2 [F0 [F1 [F2 H]]]]]].
+  rewrite H in Hb. inversion Hb; subst g. clear Hb. cbn [expected g_rule_names].
+  assert (Hn : map fst (x_rule_names a sn n1 n2) = added_of a sn n1 n2 ++ src_names a).
+  { rewrite <- env_names. unfold env_of, x_rule_names, src_rule_names.
+    destruct (eco_implicit a); reflexivity. }
+  rewrite Hn. apply nodup_app_intro.
+  - unfold added_of. destruct (eco_implicit a).
+    + eapply added_names_distinct; eauto.
+    + constructor; [intros []|constructor].
+  - apply (wf_rules_nodup a Hwf).
+  - apply (Hadd a sn n1 n2 F0 F1 F2).
+Qed.
+
+(* ---- the boolean well-formedness check is sound ------------------------------------------- *)
+
+Lemma nodupb_sound l : nodupb l = true -> NoDup l.
+Proof.
+  induction l as [|x l IH]; simpl; intros H; [constructor|].
+  apply andb_prop in H. destruct H as [H1 H2]. constructor; [|auto].
+  apply negb_true_iff in H1. apply mem_false. assumption.
+Qed.
+
+Lemma nodup_natb_sound l : nodup_natb l = true -> NoDup l.
+Proof.
+  induction l as [|x l IH]; simpl; intros H; [constructor|].
+  apply andb_prop in H. destruct H as [H1 H2]. constructor; [|auto].
+  apply negb_true_iff in H1. intros Hi. apply memn_In in Hi. unfold memn in Hi. congruence.
+Qed.
+
+Lemma wf_astb_sound : wf_astb_sound_stmt.
+Proof.
+  intros a H. unfold wf_astb in H.
+  repeat (apply andb_prop in H; destruct H as [H ?H]).
+  rename H into Hr, H0 into Himp, H1 into Hav, H2 into Hpr, H3 into Hlen, H4 into Hnd,
+         H5 into Hrg, H6 into Hst, H7 into Hsp, H8 into Htk.
+  rewrite forallb_forall in Hrg. rewrite forallb_forall in Hpr.
+  apply Nat.eqb_eq in Hlen. apply Nat.eqb_eq in Hsp.
+  assert (Hrange : forall p, In p (all_pidxs a) -> p < length (a_prods a)).
+  { intros p Hp. apply Nat.ltb_lt. apply Hrg. assumption. }
+  assert (Hnd' : NoDup (all_pidxs a)) by (apply nodup_natb_sound; assumption).
+  constructor.
+  - apply nodupb_sound; assumption.
+  - apply nodupb_sound; assumption.
+  - assumption.
+  - destruct (a_start a) as [s|]; [|discriminate]. exists s. split; [reflexivity|].
+    apply mem_In. assumption.
+  - assumption.
+  - assumption.
+  - intros p Hp.
+    assert (Hincl : incl (seq 0 (length (a_prods a))) (all_pidxs a)).
+    { apply NoDup_length_incl; [assumption|rewrite seq_length; lia|].
+      intros q Hq. apply in_seq. specialize (Hrange q Hq). lia. }
+    apply Hincl. apply in_seq. lia.
+  - intros p s Hp Hs. specialize (Hpr p Hp). unfold prod_ok in Hpr.
+    apply andb_prop in Hpr. destruct Hpr as [Hsy _]. rewrite forallb_forall in Hsy.
+    specialize (Hsy s Hs). destruct s as [x|x]; simpl in *; apply mem_In; assumption.
+  - intros p x Hp Hx. specialize (Hpr p Hp). unfold prod_ok in Hpr.
+    apply andb_prop in Hpr. destruct Hpr as [_ Hp2]. rewrite Hx in Hp2.
+    destruct (assoc x (a_precs a)) as [pr|]; [eauto|discriminate].
+  - intros l x Hl Hx. unfold names_in_tokens in Hav. rewrite Hl in Hav.
+    rewrite forallb_forall in Hav. apply mem_In. apply Hav. assumption.
+  - intros l x Hl Hx. unfold names_in_tokens in Himp. rewrite Hl in Himp.
+    rewrite forallb_forall in Himp. apply mem_In. apply Himp. assumption.
+Qed.
+
+(* ---- dense and in range (fixed constructor) ------------------------------------------------ *)
+
+Lemma nth_checked_defined {A} (l : list A) i : i < length l -> defined (nth_checked l i).
+Proof.
+  intros H. unfold defined, nth_checked. destruct (nth_error l i) as [x|] eqn:E; [eauto|].
+  apply nth_error_None in E. lia.
+Qed.
+
+Lemma nth_checked_In {A} (l : list A) i x : nth_checked l i = Done x -> In x l.
+Proof.
+  unfold nth_checked. destruct (nth_error l i) as [y|] eqn:E; [|discriminate].
+  intros H; inversion H; subst. eapply nth_error_In; eauto.
+Qed.
+
+Lemma owner_lt rs i : In i (concat (map ar_pidxs rs)) -> owner_in rs i < length rs.
+Proof.
+  induction rs as [|r rs IH]; simpl; intros H; [destruct H|].
+  destruct (existsb (Nat.eqb i) (ar_pidxs r)) eqn:E; [lia|].
+  apply in_app_or in H. destruct H as [H|H].
+  - apply memn_In in H. unfold memn in H. congruence.
+  - specialize (IH H). lia.
+Qed.
+
+Lemma token_idx_go_range l x : forall i t, token_idx_go l x i = Some t -> i <= t < i + length l.
+Proof.
+  induction l as [|o l IH]; intros i t H; simpl in H; [discriminate|].
+  destruct o as [[sp m]|].
+  - destruct (name_dec m x) as [_|_].
+    + inversion H; subst. simpl. lia.
+    + specialize (IH _ _ H). simpl. lia.
+  - specialize (IH _ _ H). simpl. lia.
+Qed.
+
+Lemma tokens_map_go_range l : forall i x t, In (x, t) (tokens_map_go l i) -> i <= t < i + length l.
+Proof.
+  induction l as [|o l IH]; intros i x t H; simpl in H; [destruct H|].
+  destruct o as [[sp m]|].
+  - destruct H as [H|H].
+    + inversion H; subst. simpl. lia.
+    + specialize (IH _ _ _ H). simpl. lia.
+  - specialize (IH _ _ _ H). simpl. lia.
+Qed.
+
+Section InRange.
+  Variable a : ast.
+  Hypothesis Hwf : wf_ast a.
+  Variables sn n1 n2 : name.
+  Let g := expected true a sn n1 n2.
+  Let n := length (a_prods a).
+  Let m := length (a_rules a).
+  Let T := length (a_tokens a).
+
+  Lemma L_rules : rules_len g = off a + m.
+  Proof.
+    unfold rules_len, g, expected, x_rule_names, off. cbn [g_rule_names].
+    rewrite app_length, map_length. destruct (eco_implicit a); reflexivity.
+  Qed.
+  Lemma L_prods : prods_len g = n + n_added a.
+  Proof. unfold prods_len, g, expected. cbn [g_prods]. apply length_x_prods. Qed.
+  Lemma L_tokens : tokens_len g = T + 1.
+  Proof.
+    unfold tokens_len, g, expected, x_token_names. cbn [g_token_names].
+    rewrite app_length, map_length, combine_length, (wf_spans_len a Hwf), Nat.min_id. reflexivity.
+  Qed.
+  Lemma L_prules : length (g_prods_rules g) = n + n_added a.
+  Proof.
+    unfold g, expected, x_prods_rules, n_added, n_src. cbn [g_prods_rules].
+    rewrite app_length, map_length, seq_length. destruct (eco_implicit a) as [l|]; [|reflexivity].
+    rewrite !app_length, repeat_length. simpl. fold n. lia.
+  Qed.
+  Lemma L_rprods : length (g_rules_prods g) = off a + m.
+  Proof.
+    unfold g, expected, x_rules_prods, off. cbn [g_rules_prods]. rewrite app_length, map_length.
+    destruct (eco_implicit a); reflexivity.
+  Qed.
+
+  Lemma off_pos : 1 <= off a /\ (forall l, eco_implicit a = Some l -> off a = 3).
+  Proof. unfold off. destruct (eco_implicit a); split; try lia; intros; try reflexivity; discriminate. Qed.
+
+  Lemma ridx_lt x : In x (map ar_name (a_rules a)) -> ridx_of a x < off a + m.
+  Proof.
+    intros H. unfold ridx_of. destruct (idx_In _ _ H) as [_ Hlt]. rewrite map_length in Hlt.
+    fold m in Hlt. lia.
+  Qed.
+  Lemma tidx_lt x : In x (a_tokens a) -> tidx_of a x < T + 1.
+  Proof. intros H. unfold tidx_of. destruct (idx_In _ _ H) as [_ Hlt]. fold T in Hlt. lia. Qed.
+
+  Lemma user_start_lt : user_start a < off a + m.
+  Proof.
+    destruct (wf_start a Hwf) as [s [Hs Hi]]. unfold user_start. rewrite Hs. apply ridx_lt; assumption.
+  Qed.
+
+  Lemma syms_in_range : forall syms, In syms (g_prods g) -> forall s, In s syms -> sym_in_range g s.
+  Proof.
+    intros syms Hin s Hs. unfold sym_in_range. rewrite L_rules, L_tokens.
+    unfold g, expected, x_prods in Hin. cbn [g_prods] in Hin.
+    apply in_app_or in Hin. destruct Hin as [Hin|Hin].
+    - apply in_map_iff in Hin. destruct Hin as [p [<- Hp]]. unfold x_prod in Hs.
+      apply in_flat_map in Hs. destruct Hs as [y [Hy Hs]].
+      pose proof (wf_syms a Hwf p y Hp Hy) as Hres.
+      destruct y as [x|x]; simpl in Hs, Hres.
+      + destruct Hs as [<-|[]]. apply ridx_lt; assumption.
+      + destruct Hs as [<-|Hs]; [apply tidx_lt; assumption|].
+        destruct (eco_implicit a) as [l|] eqn:He; [|destruct Hs].
+        destruct Hs as [<-|[]]. destruct off_pos as [_ Ho]. rewrite (Ho l He). lia.
+    - unfold x_added_prods in Hin. destruct (eco_implicit a) as [l|] eqn:He.
+      + destruct off_pos as [_ Ho]. pose proof (Ho l He) as Ho3.
+        apply in_app_or in Hin. destruct Hin as [Hin|Hin].
+        { destruct Hin as [<-|[]]. destruct Hs as [<-|[]]. lia. }
+        apply in_app_or in Hin. destruct Hin as [Hin|Hin].
+        { apply in_map_iff in Hin. destruct Hin as [t [<- Ht]].
+          destruct Hs as [<-|[<-|[]]]; [|lia].
+          apply tidx_lt. eapply eco_implicit_tokens; eauto. }
+        apply in_app_or in Hin. destruct Hin as [Hin|Hin].
+        { destruct Hin as [<-|[]]. destruct Hs. }
+        destruct Hin as [<-|[]]. destruct Hs as [<-|[<-|[]]]; [lia|apply user_start_lt].
+      + destruct Hin as [<-|[]]. destruct Hs as [<-|[]]. apply user_start_lt.
+  Qed.
+
+  Lemma prules_in_range : forall r, In r (g_prods_rules g) -> r < off a + m.
+  Proof.
+    intros r Hin. unfold g, expected, x_prods_rules in Hin. cbn [g_prods_rules] in Hin.
+    apply in_app_or in Hin. destruct Hin as [Hin|Hin].
+    - apply in_map_iff in Hin. destruct Hin as [i [<- Hi]]. apply in_seq in Hi.
+      assert (Ho : owner_in (a_rules a) i < length (a_rules a)).
+      { apply owner_lt. apply (wf_pidxs_cover a Hwf). unfold n_src in Hi. lia. }
+      fold m in Ho. lia.
+    - destruct (eco_implicit a) as [l|] eqn:He.
+      + destruct off_pos as [_ Ho]. rewrite (Ho l He).
+        apply in_app_or in Hin. destruct Hin as [[<-|[]]|Hin]; [lia|].
+        apply in_app_or in Hin. destruct Hin as [Hin|[<-|[]]]; [|lia].
+        apply repeat_spec in Hin. subst. lia.
+      + destruct Hin as [<-|[]]. destruct off_pos. lia.
+  Qed.
+
+  Lemma rprods_in_range : forall ps, In ps (g_rules_prods g) -> forall p, In p ps -> p < n + n_added a.
+  Proof.
+    intros ps Hin p Hp. unfold g, expected, x_rules_prods, n_added, n_src in *. cbn [g_rules_prods] in Hin.
+    fold n in Hin. apply in_app_or in Hin. destruct Hin as [Hin|Hin].
+    - destruct (eco_implicit a) as [l|].
+      + destruct Hin as [<-|[<-|[<-|[]]]].
+        * destruct Hp as [<-|[]]. lia.
+        * apply in_seq in Hp. lia.
+        * destruct Hp as [<-|[]]. lia.
+      + destruct Hin as [<-|[]]. destruct Hp as [<-|[]]. lia.
+    - apply in_map_iff in Hin. destruct Hin as [r [<- Hr]].
+      assert (Hlt : p < length (a_prods a)).
+      { apply (wf_pidxs_range a Hwf). unfold all_pidxs. apply in_concat. exists (ar_pidxs r).
+        split; [apply in_map; assumption|assumption]. }
+      fold n in Hlt. destruct (eco_implicit a); lia.
+  Qed.
+
+  Lemma expected_in_range : obj_in_range g.
+  Proof.
+    assert (Hna : 1 <= n_added a) by (unfold n_added; destruct (eco_implicit a); lia).
+    constructor.
+    - rewrite L_prods. unfold start_prod, g, expected, n_src. cbn [g_start_prod]. fold n. lia.
+    - rewrite L_tokens. unfold eof_token_idx, g, expected. cbn [g_eof]. fold T. lia.
+    - intros r Hr. rewrite L_rules. unfold implicit_rule, g, expected in Hr. cbn [g_implicit_rule] in Hr.
+      destruct (eco_implicit a) as [l|] eqn:He; [|discriminate]. inversion Hr; subst.
+      destruct off_pos as [_ Ho]. rewrite (Ho l He). lia.
+    - unfold start_rule_idx, prod_to_rule.
+      destruct (nth_checked_defined (g_prods_rules g) (g_start_prod g)) as [r Hr].
+      { rewrite L_prules. unfold g, expected, n_src. cbn [g_start_prod]. fold n. lia. }
+      exists r. split; [assumption|]. rewrite L_rules. apply prules_in_range.
+      eapply nth_checked_In; eauto.
+    - intros r Hr. rewrite L_rules in Hr.
+      assert (Hrn : r < length (g_rule_names g)) by (pose proof L_rules as H; unfold rules_len in H; lia).
+      repeat split.
+      + unfold rule_name_str. destruct (nth_checked_defined _ _ Hrn) as [x Hx]. rewrite Hx. eexists; reflexivity.
+      + unfold rule_name_span. destruct (nth_checked_defined _ _ Hrn) as [x Hx]. rewrite Hx. eexists; reflexivity.
+      + unfold actiontype. apply nth_checked_defined.
+        unfold g, expected, x_actiontypes. cbn [g_actiontypes].
+        rewrite app_length, repeat_length, map_length. fold m. lia.
+      + unfold rule_to_prods.
+        destruct (nth_checked_defined (g_rules_prods g) r) as [ps Hps]; [rewrite L_rprods; lia|].
+        exists ps. split; [assumption|]. intros p Hp. rewrite L_prods.
+        eapply rprods_in_range; [eapply nth_checked_In; eauto|assumption].
+    - intros p Hp. rewrite L_prods in Hp.
+      assert (Hpn : p < length (g_prods g)) by (pose proof L_prods as H; unfold prods_len in H; lia).
+      repeat split.
+      + unfold prod_at, prod_len. destruct (nth_checked_defined _ _ Hpn) as [syms Hs].
+        exists syms. rewrite Hs. repeat split; try reflexivity.
+        apply syms_in_range. eapply nth_checked_In; eauto.
+      + unfold prod_to_rule.
+        destruct (nth_checked_defined (g_prods_rules g) p) as [r Hr]; [rewrite L_prules; lia|].
+        exists r. split; [assumption|]. rewrite L_rules. apply prules_in_range.
+        eapply nth_checked_In; eauto.
+      + unfold prod_precedence. apply nth_checked_defined.
+        unfold g, expected, x_prod_precs. cbn [g_prod_precs].
+        rewrite app_length, map_length, repeat_length. fold n. lia.
+      + unfold prod_span. apply nth_checked_defined.
+        unfold g, expected, x_prod_spans. cbn [g_prod_spans].
+        rewrite app_length, map_length, repeat_length. fold n. lia.
+      + unfold action. apply nth_checked_defined.
+        unfold g, expected, x_actions. cbn [g_actions].
+        rewrite app_length, map_length, repeat_length. fold n. lia.
+      + unfold action_span. apply nth_checked_defined.
+        unfold g, expected, x_action_spans. cbn [g_action_spans].
+        rewrite app_length, map_length, repeat_length. fold n. lia.
+    - intros t Ht. rewrite L_tokens in Ht.
+      assert (Htn : t < length (g_token_names g)) by (pose proof L_tokens as H; unfold tokens_len in H; lia).
+      repeat split.
+      + unfold token_name. destruct (nth_checked_defined _ _ Htn) as [x Hx]. rewrite Hx. eexists; reflexivity.
+      + unfold token_precedence. apply nth_checked_defined.
+        unfold g, expected, x_token_precs. cbn [g_token_precs]. rewrite app_length, map_length. fold T. simpl. lia.
+      + unfold token_epp. apply nth_checked_defined.
+        unfold g, expected, x_token_epp. cbn [g_token_epp]. rewrite app_length, map_length. fold T. simpl. lia.
+      + unfold token_span. destruct (nth_checked_defined _ _ Htn) as [x Hx]. rewrite Hx. eexists; reflexivity.
+      + unfold avoid_insert, g, expected, x_avoid. cbn [g_avoid_insert].
+        destruct (a_avoid a) as [l|]; [|eexists; reflexivity].
+        apply nth_checked_defined. rewrite app_length, map_length. fold T. simpl. lia.
+    - intros x r Hr. unfold rule_idx in Hr. apply index_of_lt in Hr. rewrite map_length in Hr. exact Hr.
+    - intros x t Ht. unfold token_idx in Ht. apply token_idx_go_range in Ht. unfold tokens_len. lia.
+    - intros x t Ht. unfold tokens_map in Ht. apply tokens_map_go_range in Ht. unfold tokens_len. lia.
+  Qed.
+End InRange.
+
+Lemma build_dense_in_range : build_dense_in_range_stmt.
+Proof.
+  intros a g Hwf Hb. destruct (build_faithful true a Hwf) as [sn [n1 [n2 [_ [_ [_ H]]]]]].
+  rewrite H in Hb. inversion Hb; subst g. apply expected_in_range. assumption.
+Qed.
+
+(* ---- the code as it is: witnesses ------------------------------------------------------------ *)
+
+(* %%  S: 'a';                                      (any kind) *)
+Definition ex_plain : ast :=
+  mkAst KOriginal (Some [83%N])
+        [mkARule [83%N] (3, 4) [0] None]
+        [mkAProd [AToken [97%N]] None None (6, 9)]
+        [[97%N]] [(7, 8)] [] None None [] None None None None None.
+
+(* %implicit_tokens w  %%  S: 'a';                  (Eco) *)
+Definition ex_eco : ast :=
+  mkAst KEco (Some [83%N])
+        [mkARule [83%N] (22, 23) [0] None]
+        [mkAProd [AToken [97%N]] None None (25, 28)]
+        [[119%N]; [97%N]] [(17, 18); (26, 27)] [] None (Some [[119%N]]) [] None None None None None.
+
+Lemma ex_plain_wf : wf_ast ex_plain.
+Proof. apply wf_astb_sound. vm_compute. reflexivity. Qed.
+Lemma ex_eco_wf : wf_ast ex_eco.
+Proof. apply wf_astb_sound. vm_compute. reflexivity. Qed.
+
+Lemma build_dense_in_range_refuted : build_dense_in_range_refuted_stmt.
+Proof.
+  eexists ex_plain, _. split; [exact ex_plain_wf|]. split; [vm_compute; reflexivity|].
+  split; [vm_compute; lia|]. split; [reflexivity|]. split; [reflexivity|].
+  intros H. destruct (ir_prod _ H 1) as [_ [_ [_ [[v Hv] _]]]]; [vm_compute; lia|].
+  vm_compute in Hv. discriminate.
+Qed.
+
+Lemma build_eco_actions_refuted : build_eco_actions_refuted_stmt.
+Proof.
+  eexists ex_eco, _, 1, [2; 3], 2. split; [exact ex_eco_wf|]. split; [vm_compute; reflexivity|].
+  split; [reflexivity|]. split; [reflexivity|]. split; [left; reflexivity|].
+  split; reflexivity.
+Qed.
+
+(* the hypotheses of the theorems are satisfiable, and the fixed constructor's
+   object on the two witnesses is in range *)
+Example wf_ast_satisfiable : exists a, wf_ast a /\ a_kind a = KEco /\ a_implicit a <> None.
+Proof. exists ex_eco. split; [exact ex_eco_wf|]. split; [reflexivity|discriminate]. Qed.
